@@ -41,6 +41,16 @@ def _chunk(items):
     bad = []
     n = 0
     caches = {}
+    # what the parsing functions hand out belongs to the caller (configuration without a cache): changed in place it must not
+    # show in any later expansion
+    try:
+        c0 = emmet.Config({'type': 'stylesheet'})
+        common.scramble(emmet.stylesheet_abbreviation('pos:a+bd1-s+@kf', c0))
+        lst = emmet.parse_stylesheet_snippets(c0.snippets)
+        common.scramble(lst[: len(lst) // 2])
+        del lst[::3]
+    except Exception as e:
+        bad.append(('expand raised', {'key': '(parsing functions)', 'exception': type(e).__name__}))
     for v, user, syntaxes in items:
         key = v['key']
         for syn in syntaxes:
@@ -129,6 +139,17 @@ def _chunk(items):
                             exp = v['prop'] + between + f['out'] + after
                             if _norm(g) != _norm(exp):
                                 bad.append(('keyword (function)', dict(case, abbr=ab, expected=exp, actual=g, flags={'keyword_name_has_digit': bool(f.get('digit'))})))
+                # value scope: the context names a property - a keyword of the (first, in key order) snippet of that property typed in
+                # full, in upper case, resolves to that keyword
+                if v.get('valueOwner') and not marking and syn == 'css' and not user:
+                    for kw in v['keywords'][:6]:
+                        try:
+                            g = ex(kw.upper(), {'context': {'name': v['prop']}})
+                            n += 1
+                            if g != kw:
+                                bad.append(('scope', dict(case, scope=v['prop'], abbr=kw.upper(), expected=kw, actual=g, why='value scope')))
+                        except Exception as e:
+                            bad.append(('expand raised', dict(case, scope=v['prop'], abbr=kw.upper(), exception=type(e).__name__)))
                 # scopes
                 if not marking and syn == 'css' and key != 'lg':      # 'lg' is the hard-wired gradient shortcut, resolved before table and scope
                     try:
@@ -207,6 +228,11 @@ def run(out):
         vec1 = {k: v for k, v in vec2.items() if k not in USER} if vec2 else None
     else:
         vec1 = _table_vectors(out, 'builtin-table', builtin)
+    for vecs in (vec1, vec2):
+        first = {}
+        for k in sorted(vecs or {}):
+            v = vecs[k]
+            v['valueOwner'] = bool(v['kind'] == 'prop' and first.setdefault(v['prop'], k) == k)
     syn_all = list(SYNTAX)
     items = []
     if vec1:
